@@ -46,6 +46,7 @@ class World:
         self.tensors: list = []
         self.keepalive: list = []
         self._labels: dict[int, str] = {}
+        self.broken: dict[int, str] = {}  # id(object) -> why its accessors cannot be read
 
     # ---- registry ---------------------------------------------------------------------------
     def _add(self, pool: list, prefix: str, obj) -> None:
@@ -102,21 +103,28 @@ class World:
             for f in list(self.functions):
                 self.add_graph(f.graph)
             for n in list(self.nodes):
-                for v in n.outputs:
-                    self.add_value(v)
-                for v in n.inputs:
-                    if v is not None:
+                if id(n) in self.broken:
+                    continue
+                try:
+                    for v in n.outputs:
                         self.add_value(v)
-                g = n.graph
-                if isinstance(g, ir.Graph):
-                    self.add_graph(g)
-                for attr in list(n.attributes.values()):
-                    if isinstance(attr, ir.Attr) and not attr.is_ref():
-                        if attr.type == ir.AttributeType.GRAPH:
-                            self.add_graph(attr.value)
-                        elif attr.type == ir.AttributeType.GRAPHS:
-                            for sg in attr.value:
-                                self.add_graph(sg)
+                    for v in n.inputs:
+                        if v is not None:
+                            self.add_value(v)
+                    g = n.graph
+                    if isinstance(g, ir.Graph):
+                        self.add_graph(g)
+                    for attr in list(n.attributes.values()):
+                        if isinstance(attr, ir.Attr) and not attr.is_ref():
+                            if attr.type == ir.AttributeType.GRAPH:
+                                self.add_graph(attr.value)
+                            elif attr.type == ir.AttributeType.GRAPHS:
+                                for sg in attr.value:
+                                    self.add_graph(sg)
+                except AttributeError as e:
+                    # a half-constructed node (its constructor raised) that is still reachable,
+                    # e.g. through value.uses(): the monitors report it, the harness must not crash
+                    self.broken[id(n)] = f"{type(e).__name__}: {e}"
             for v in list(self.values):
                 p = v.producer()
                 if p is not None:
@@ -438,6 +446,24 @@ def _io_setslice(w, c, which, a, b, vs):
 
     def run():
         lst[a:b] = vals
+    return run
+
+
+@op("io_setslice3")
+def _io_setslice3(w, c, which, a, b, step, vs):
+    lst, vals = _io(w, c, which), w.Vs(vs)
+
+    def run():
+        lst[a:b:step] = vals
+    return run
+
+
+@op("io_delslice3")
+def _io_delslice3(w, c, which, a, b, step):
+    lst = _io(w, c, which)
+
+    def run():
+        del lst[a:b:step]
     return run
 
 
